@@ -177,3 +177,25 @@ func Ret0(b []byte) (bool, []byte) {
 	}
 	return false, b
 }
+func Collect(l []int32, k int16) ([]int, []byte, int, int, int) {
+	var pos []int
+	bs := make([]byte, 2, 8)
+	m := map[int]int{7: 1}
+	total := 0
+	for i, v := range l {
+		if v > 0 {
+			pos = append(pos, i, int(v))
+			m[i] = int(v) * 2
+			total += m[i]
+		} else {
+			bs = append(bs, byte(v))
+			m[7] += i
+		}
+	}
+	return pos, bs, total, m[int(k)], m[7]
+}
+func Make(n, c int8) ([]int16, int) {
+	s := make([]int16, n, c)
+	t := make([]int16, c)
+	return s, len(t)
+}
